@@ -74,6 +74,9 @@ func (s *Seq) opAwait(op *Op) {
 		return
 	}
 	s.W.Sleep(d)
+	// a flusher may be in the middle of a flush / commit at this very instant: let it
+	// finish (no simulated time passes) before looking at the disk
+	s.W.Settle()
 	p1, err := s.pendingNow()
 	if err != nil {
 		s.fail("async", "undecodable-file", "await: %v", err)
